@@ -193,9 +193,22 @@ func (it *hdrInterp) stmt(s ast.Stmt) {
 	case *ast.IfStmt:
 		// bool field test
 		cond := ast.Unparen(x.Cond)
+		negated := false
+		if u, ok := cond.(*ast.UnaryExpr); ok && u.Op == token.NOT {
+			cond, negated = ast.Unparen(u.X), true
+		}
+		if be, ok := cond.(*ast.BinaryExpr); ok && (be.Op == token.EQL || be.Op == token.NEQ) {
+			// x.transposed == false / != true ...
+			if lit := types.ExprString(be.Y); lit == "true" || lit == "false" {
+				cond = ast.Unparen(be.X)
+				if (be.Op == token.EQL) != (lit == "true") {
+					negated = !negated
+				}
+			}
+		}
 		if se, ok := cond.(*ast.SelectorExpr); ok && se.Sel.Name == "transposed" {
 			if h := it.hdrOf(se.X); h != nil {
-				if h.transposed {
+				if h.transposed != negated {
 					it.block(x.Body.List)
 				} else if x.Else != nil {
 					if b, ok := x.Else.(*ast.BlockStmt); ok {
